@@ -619,7 +619,7 @@ def verify_site(live, mm: MetaModel, world: World, sources: HookSources, decl_by
     res.obligations = obs
     res.static_failures = checker.static
     res.extra["paths"] = [(i, describe_reading(r) if r is not None else f"raise {out[1]}") for i, p, out, r in path_infos]
-    res.extra["paths_full"] = [(list(p.pc), out, r) for i, p, out, r in path_infos]
+    res.extra["paths_full"] = [([sym.resolve(c) for c in p.pc], out, r) for i, p, out, r in path_infos]
     return res
 
 
@@ -682,6 +682,8 @@ def _o3_obligations(label, sym: Site, val: Validity, tau, optional, paths, path_
         for kind in ("tag ", "b ", "i ", "r ", "s ", "len ", "nonempty ", "nkeys ", "pystr ", "valid! ", "valid? ", "mapvalues! ", "mapvalues? ", "elemtest "):
             if body.startswith(kind):
                 path = body.split(" @ ")[-1] if " @ " in body else body[len(kind) :].split(" :: ")[0]
+                if kind in ("nonempty ", "nkeys ") and OMEGA in sym.keys.get(path, ()):
+                    return True  # truthiness / size of an object of a declared structure type depends on its undeclared keys
                 return _below_undeclared(path, declared)
         return False
 
@@ -702,7 +704,7 @@ def _o3_obligations(label, sym: Site, val: Validity, tau, optional, paths, path_
                     f"{label}:O3:{keys[a][1][:60]}~{keys[b][1][:60]}",
                     "O3",
                     [],
-                    [pre_loose, pc_a, ("@@PRIME@@", pre_loose), ("@@PRIME@@", pc_b)],
+                    [pre_loose, pc_a, ("@@PRIME@@", pre_loose), ("@@PRIME@@", pc_b), ("@@PRIME@@", sym.key_axioms())],
                     "unsat",
                     {"path": groups[keys[a]][0], "other": groups[keys[b]][0], "impl": f"{keys[a]} vs {keys[b]}", "undeclared": undeclared_symbol},
                 )
